@@ -367,7 +367,12 @@ def run_products(ctx):
                      ('exp(adaptive) <= static', lambda m, x, z, y: rso.exp(y[0]) <= x[0]),
                      ('abs(static) <= adaptive', lambda m, x, z, y: abs(x - 1) <= y),
                      ('log(adaptive + 3) >= static', lambda m, x, z, y: rso.log(y[0] + 3) >= x[0]),
-                     ('pexp(static, adaptive + 3) <= static', lambda m, x, z, y: rso.pexp(x[0], y[0] + 3) <= x[1])):
+                     ('pexp(static, adaptive + 3) <= static', lambda m, x, z, y: rso.pexp(x[0], y[0] + 3) <= x[1]),
+                     ('expcone(static, adaptive, 1)', lambda m, x, z, y: rso.expcone(x[0], y[0], 1)),
+                     ('expcone(adaptive, static, 1)', lambda m, x, z, y: rso.expcone(y[0] + 5, x[0], 1)),
+                     ('expcone(static, static, adaptive)', lambda m, x, z, y: rso.expcone(x[0], x[1], y[1] + 3)),
+                     ('(adaptive).expcone(static, 1)', lambda m, x, z, y: (y[0] + 5).expcone(x[0], 1)),
+                     ('LMI with an adaptive entry', lambda m, x, z, y: rso.rstack([x[0] + 3, y[0]], [y[0], x[1] + 3]) >> 0)):
         def run_(mkc=mkc):
             m, x, z, y = mk_dro_set()
             m.st(mkc(m, x, z, y), y >= z, x >= -5, x <= 5)
